@@ -10,7 +10,7 @@ def _load(name):
 _c01, _c02 = _load("c01"), _load("c02")
 CHUNK_MIN = 1200   # one generated crate per chunk: keep chunks large
 
-RULE = ("(hardening: texts of 700..2000 characters, 15+ digit coefficients / fraction parts / exponents, exponents 1e-300..1e300, one literal per decade 1e-320..1e308, signed zeros, the largest dense power, 16 univariate and 26 multivariate variable letters, the macros reached through spindalis_macros::, spindalis::polynomials::, spindalis::polynomials::macros:: and forwarded through a declarative macro, invalid texts of every error kind of both runtime parsers alone and inside correct polynomials, every rejected invocation between two correct ones on adjacent lines) macro invocations of both polynomial macros on grammar texts of 5..600 characters (ASCII white space incl. line breaks, "
+RULE = ("(hardening: texts of 700..2000 characters, 15+ digit coefficients / fraction parts / exponents, exponents 1e-300..1e300, one literal per decade 1e-320..1e308, signed zeros, the largest dense power, 16 univariate and 26 multivariate variable letters, the macros reached through spindalis_macros::, spindalis::polynomials::, spindalis::polynomials::macros:: and forwarded through a declarative macro, invalid texts of every error kind of both runtime parsers alone and inside correct polynomials, every rejected invocation between two correct ones on adjacent lines; every white-space character of the Rust tokenizer that is also White_Space - U+0009..U+000D, U+0020, U+0085, U+2028, U+2029 - as a raw character in the SOURCE of the invocation, between terms, inside a term, inside a number, around '^' and '/', leading and trailing, alone, in mixtures and runs, and sprinkled over 300..700-character texts, while the runtime parser reads the same source text; U+200E / U+200F only as the corpus lines of the open finding F-C20-lrm) macro invocations of both polynomial macros on grammar texts of 5..600 characters (ASCII white space incl. line breaks, "
         "all coefficient spellings incl. 17-digit decimals, fractions, negative and fractional exponents, non-ASCII variable "
         "letters) compiled into a generated crate and run; plus ungrammatical texts that tokenize, checked for a compile error at "
         "their own line. Non-trivial = an invocation whose text the model accepts and that is longer than 30 characters (so the "
@@ -27,6 +27,9 @@ RULE = ("(hardening: texts of 700..2000 characters, 15+ digit coefficients / fra
 #    macro == runtime parser, whatever the parser returns), so any order of the rounded additions of the correctly
 #    rounded literals is accepted: |impl - exact sum| <= (n+1) 2^-52 sum |d_i|  (n literals; the C01Rounding bound) -
 #    the rule of tools/props/c01.py `sum_close`, shared with C01 and C16.
+#  * the request carries the SOURCE text; the model (lean/SV/Model/C20.lean `tokenText`) turns every white-space character of
+#    the Rust tokenizer (Pattern_White_Space, U+200E / U+200F included) into a plain space before it parses, as the
+#    tokenizer + token printer do for the macro.  Macro vs RUNTIME PARSER ON THE SAME SOURCE TEXT is S, in the harness.
 #  * a rejected text: "a compile error at that invocation" - the statement does not name the error kind, so two errors
 #    are equal whatever kind the diagnostic mentions (`compiled` vs `err` stays a disagreement).
 
